@@ -536,9 +536,10 @@ def rule_zero_defers(ctx):
     r = RuleResult("CW-ZERO-DEFERS", ["C01", "C04"],
                    "a strong decrement hands off exactly one destruction attempt iff it observed strong == amount")
     nsites = set()
-    for f in (DEC_STRONG, DGN):
+    fns = sorted({a["fn"] for a in ctx.scan_accesses() if a["op"] != "load"} | {DEC_STRONG, DGN})
+    for f in fns:
         r.functions.add(f)
-        for p in (ctx.paths2(f) if f == DEC_STRONG else ctx.paths(f)):
+        for p in (ctx.paths(f) if f == DGN else ctx.paths2(f)):
             r.paths += 1
             sites = [s for s in ctx.sites_on_path(p) if s["delta"].get("strong", (0,))[0] < 0]
             for s in sites:
@@ -1173,29 +1174,35 @@ def rule_cascade(ctx):
                     rm.violate(f, "merge", "child stamp is not a Modular::max merge", s["event"].loc())
                     continue
                 m = mx[0]
-                srcs = m[2][1]
-                src_txt = show(srcs)
-                need = {
-                    "parent stamp": any(x[0] == "call" and x[1] == ST + "epoch" and ctx.parse_state(x[2][0])[0] == own
-                                        for x in subterms(srcs)),
-                    "link stamp": any(x[0] == "call" and norm(x[1]) == "ebr_impl::pointers::Tagged::high_tag"
-                                      for x in subterms(srcs)),
-                    "child stamp": any(x[0] == "call" and x[1] == ST + "epoch" and ctx.parse_state(x[2][0])[0] == s["observed"]
-                                       for x in subterms(srcs)),
-                }
-                # the link whose high_tag is read must be the pointer whose count is decremented
-                for x in subterms(srcs):
-                    if x[0] == "call" and norm(x[1]) == "ebr_impl::pointers::Tagged::high_tag":
-                        if ptr_root(x[2][0]) != ptr_root(s["obj"]):
-                            need["link stamp"] = False
+                srcs = strip(m[2][1])
+                elems = list(srcs[3]) if isinstance(srcs, tuple) and srcs[0] == "agg" else None
+                if elems is None:
+                    raise AnalysisError("CW-CASCADE-MERGE: the merged stamps are not an array literal")
+                kinds = []
+                for el in elems:
+                    x = _uncast(strip(el))
+                    k = "other"
+                    if isinstance(x, tuple) and x[0] == "call":
+                        if x[1] == ST + "epoch" and ctx.parse_state(x[2][0])[0] == own:
+                            k = "parent stamp"
+                        elif x[1] == ST + "epoch" and ctx.parse_state(x[2][0])[0] == s["observed"]:
+                            k = "child stamp"
+                        elif norm(x[1]) == "ebr_impl::pointers::Tagged::high_tag" and ptr_root(x[2][0]) == ptr_root(s["obj"]):
+                            k = "link stamp"
+                        elif norm(x[1]) == "ebr_impl::default::global_epoch":
+                            k = "current epoch"
+                    kinds.append(k)
                 merges += 1
+                # safety (C02): every source is merged, or replaced by the current epoch (the most recent possible)
+                need = {src: (src in kinds or "current epoch" in kinds) for src in ("parent stamp", "link stamp", "child stamp")}
                 okm = all(need.values())
-                if (f, s["event"].bb) not in seen_dec:
-                    rm.instance("child stamp = max(%s)" % ", ".join(k for k, v in need.items() if v), okm)
-                seen_dec.add((f, s["event"].bb))
+                rm.instance("child stamp = max(%s)" % ", ".join(kinds), okm)
                 for k, v in need.items():
                     if not v:
                         rm.violate(f, "merge", "the merged child stamp does not include the %s" % k, s["event"].loc())
+                # precision (C06): nothing but the three stamps is merged
+                imprecise = [k for k in kinds if k not in ("parent stamp", "link stamp", "child stamp")]
+                ctx.__dict__.setdefault("_merge_precision", []).append((kinds, imprecise, s["event"].loc()))
                 # window of the Modular used
                 mod = strip(m[2][0])
                 _check_window(ctx, rm, f, mod, p, s["event"])
